@@ -14,6 +14,7 @@ pub struct Meta {
 /// Writes the evidence file, the replay file of a violation, prints the verdict lines and returns the exit code.
 pub fn finish(ctx: &mut Ctx, meta: Meta) -> i32 {
     let root = verif_root();
+    #[allow(unused_assignments)]
     let mut violations = 0;
     let mut replay_path = None;
     if let Some(f) = &ctx.failure {
@@ -50,8 +51,47 @@ pub fn finish(ctx: &mut Ctx, meta: Meta) -> i32 {
     for (k, v) in &ctx.tally.extra {
         coverage[k] = v.clone();
     }
+    if let Some(pf) = &ctx.prog_failure {
+        violations = 1;
+        coverage["violation"] = json!({"signature": pf.sig, "detail": pf.detail, "program": pf.replay.display().to_string()});
+    }
     if let Some(f) = &ctx.failure {
         coverage["violation"] = json!({"signature": f.sig, "detail": f.violation.detail, "case": f.case.to_json()});
+    }
+    // a property served by two binaries (guard off + guard on): the second run merges into the first one's file
+    let dir = root.join("evidence");
+    let path = dir.join(format!("{}.json", ctx.prop));
+    let mut wall = ctx.start.elapsed().as_secs_f64();
+    if std::env::var("VERIF_MERGE").ok().as_deref() == Some("1") {
+        if let Ok(text) = std::fs::read_to_string(&path) {
+            if let Ok(prev) = serde_json::from_str::<Value>(&text) {
+                if prev["property_id"] == json!(ctx.prop) && prev["tier"] == json!(ctx.tier) {
+                    let pc = &prev["coverage"];
+                    let add = |a: &Value, b: &Value| json!(a.as_u64().unwrap_or(0) + b.as_u64().unwrap_or(0));
+                    coverage["evaluations"] = add(&coverage["evaluations"], &pc["evaluations"]);
+                    coverage["distinct_nontrivial"] = add(&coverage["distinct_nontrivial"], &pc["distinct_nontrivial"]);
+                    coverage["inconclusive"] = add(&coverage["inconclusive"], &pc["inconclusive"]);
+                    for key in ["classes", "excluded_known"] {
+                        if let Some(m) = pc[key].as_object() {
+                            for (k, v) in m {
+                                let cur = coverage[key][k].as_u64().unwrap_or(0);
+                                coverage[key][k] = json!(cur + v.as_u64().unwrap_or(0));
+                            }
+                        }
+                    }
+                    for key in ["campaigns", "samples"] {
+                        let mut merged: Vec<Value> = pc[key].as_array().cloned().unwrap_or_default();
+                        merged.extend(coverage[key].as_array().cloned().unwrap_or_default());
+                        if key == "samples" {
+                            merged.truncate(8);
+                        }
+                        coverage[key] = json!(merged);
+                    }
+                    coverage["merged_from"] = json!("guard-off engines (first binary) + schedule engine (second binary)");
+                    wall += prev["wall_s"].as_f64().unwrap_or(0.0);
+                }
+            }
+        }
     }
     let ev: Value = json!({
         "property_id": ctx.prop,
@@ -60,12 +100,10 @@ pub fn finish(ctx: &mut Ctx, meta: Meta) -> i32 {
         "level": meta.level,
         "coverage": coverage,
         "assumptions": meta.assumptions,
-        "wall_s": ctx.start.elapsed().as_secs_f64(),
+        "wall_s": wall,
         "violations": violations,
     });
-    let dir = root.join("evidence");
     let _ = std::fs::create_dir_all(&dir);
-    let path = dir.join(format!("{}.json", ctx.prop));
     if let Err(e) = std::fs::write(&path, serde_json::to_string_pretty(&ev).expect("json")) {
         eprintln!("cannot write evidence {}: {}", path.display(), e);
         return 2;
@@ -88,6 +126,17 @@ pub fn finish(ctx: &mut Ctx, meta: Meta) -> i32 {
         ctx.tally.inconclusive,
         ctx.start.elapsed().as_secs_f64()
     );
+    if let Some(pf) = &ctx.prog_failure {
+        println!("violation [{}]: {}", pf.sig, pf.detail);
+        println!("VIOLATION property={} replay={}", ctx.prop, pf.replay.display());
+        return 1;
+    }
+    if ctx.failure.is_none() && !ctx.trouble.is_empty() {
+        for t in &ctx.trouble {
+            println!("INCONCLUSIVE: {}", t);
+        }
+        return 2;
+    }
     if ctx.failure.is_none() && ctx.tally.evaluations > 0 && ctx.tally.inconclusive * 2 > ctx.tally.evaluations {
         println!("INCONCLUSIVE: {} of {} cases could not be decided by the engine", ctx.tally.inconclusive, ctx.tally.evaluations);
         return 2;
